@@ -404,6 +404,11 @@ impl Session {
                 v["ok"] = json!(true);
                 v
             }
+            "c16_sweep" => {
+                let mut v = crate::c16w::sweep(self, cmd["full"].as_bool().unwrap_or(false));
+                v["ok"] = json!(true);
+                v
+            }
             "c15_sweep" => {
                 let mut v = crate::c15w::sweep(self);
                 v["ok"] = json!(true);
